@@ -28,6 +28,9 @@
 //! kind 8: `8 readers dlen`: several tasks parked in recv_datagram() on clones of one connection,
 //!   then as many datagrams queued back to back by the peer: each reader must get one.
 //!
+//! kind 9: `9 len1 len2 which`: the halves of one bidirectional stream used independently: the send
+//!   half is finished and dropped while a reader is parked on the receive half.
+//!
 //! Every result ends with the compio_quic::verif log (waker-table snapshots).
 use std::{
     cell::{Cell, RefCell},
@@ -917,6 +920,110 @@ fn run_dgram_readers(c: &mut Case) -> Result<Vec<u64>, BadCase> {
 }
 
 // ---------------------------------------------------------------------------
+// kind 9: `9 len1 len2 which`: the two halves of ONE bidirectional stream used independently.
+// The client writes `len1` bytes, the accepting side parks a reader on the receive half
+// (which 0: read_to_end, 1: read loop), answers on the send half, finishes and DROPS the send
+// half while the reader is still parked; only then does the client send `len2` more bytes and
+// finish. The reader must get len1 + len2 bytes and end-of-stream.
+// result: `0 verdict got expected log`
+
+fn run_bidi_halves(c: &mut Case) -> Result<Vec<u64>, BadCase> {
+    let len1 = c.take()? as usize;
+    let len2 = c.take()? as usize;
+    let which = c.take()?;
+    if len1 == 0 || len1 > 1 << 16 || len2 > 1 << 16 || which > 1 {
+        return Err(BadCase);
+    }
+    let out = Rc::new(Cell::new(0u64));
+    let rt = compio_runtime::Runtime::new().unwrap();
+    verif::start();
+    let o = out.clone();
+    let verdict = rt.block_on(async move {
+        watchdog(IDLE, async move {
+            let Some(Pair { server, client, sconn, cconn }) = establish(TransportConfig::default()).await else {
+                return 1u64;
+            };
+            let (mut cs, mut cr) = cconn.open_bi().unwrap();
+            let BufResult(r, _) = cs.write_all(vec![3u8; len1]).await;
+            if r.is_err() {
+                return 2;
+            }
+            let Ok((mut ss, mut sr)) = sconn.accept_bi().await else { return 2 };
+            let got = Rc::new(Cell::new(None::<u64>));
+            let g = got.clone();
+            let reader = compio_runtime::spawn(async move {
+                let mut total = 0u64;
+                if which == 0 {
+                    let BufResult(r, _) = sr.read_to_end(Vec::with_capacity(16)).await;
+                    if let Ok(n) = r {
+                        total = n as u64;
+                    }
+                } else {
+                    loop {
+                        match read_chunk(&mut sr, 700).await {
+                            Ok(b) if !b.is_empty() => total += b.len() as u64,
+                            _ => break,
+                        }
+                        bump();
+                    }
+                }
+                g.set(Some(total));
+            });
+            // let the reader consume what is there and park
+            for _ in 0..5 {
+                sleep(Duration::from_millis(3)).await;
+            }
+            let BufResult(r, _) = ss.write_all(b"ack".to_vec()).await;
+            if r.is_err() {
+                return 2;
+            }
+            let _ = ss.finish();
+            drop(ss);
+            for _ in 0..3 {
+                sleep(Duration::from_millis(3)).await;
+            }
+            // the peer reads the answer, then sends the rest and finishes
+            let mut ans = Vec::new();
+            loop {
+                match read_chunk(&mut cr, 100).await {
+                    Ok(b) if !b.is_empty() => ans.extend_from_slice(&b),
+                    _ => break,
+                }
+            }
+            if len2 > 0 {
+                let BufResult(r, _) = cs.write_all(vec![4u8; len2]).await;
+                if r.is_err() {
+                    return 2;
+                }
+            }
+            let _ = cs.finish();
+            for _ in 0..600 {
+                if got.get().is_some() {
+                    break;
+                }
+                sleep(Duration::from_millis(5)).await;
+            }
+            o.set(got.get().unwrap_or(u64::MAX >> 1));
+            drop(reader);
+            drop(cs);
+            drop(cr);
+            cconn.close(VarInt::from_u32(0), b"");
+            drop(sconn);
+            drop(cconn);
+            let _ = futures_util::join!(client.shutdown(), server.shutdown());
+            if ans == b"ack" { 0 } else { 4 }
+        })
+        .await
+        .unwrap_or(3)
+    });
+    drop(rt);
+    let log = verif::take();
+    let mut res = vec![0, verdict, out.get(), (len1 + len2) as u64];
+    push_log(&mut res, &log);
+    Ok(res)
+}
+
+// ---------------------------------------------------------------------------
 // kind 6: `6 len hdr mode wchunk pre_cap delay`
 // result: `0 verdict hdr_ok returned expected rest_ok log`
 
@@ -1138,6 +1245,7 @@ fn run(case: &[u64]) -> Result<Vec<u64>, BadCase> {
         6 => run_read_to_end(&mut c),
         7 => run_drop_stopped(&mut c),
         8 => run_dgram_readers(&mut c),
+        9 => run_bidi_halves(&mut c),
         _ => Err(BadCase),
     }
 }
